@@ -135,6 +135,60 @@ func init() {
 }
 
 func init() {
+	// a pooled link drops in the middle of two streams (one in each direction) and is re-dialled by the real
+	// Serve/Join code of the initiator: what arrives, arrives in order (what was in flight on the cut link may be lost)
+	for _, cut := range []int{0, 1, 2} {
+		for _, side := range []string{"a", "b"} {
+			cut, side := cut, side
+			harn.Register(harn.Scenario{Property: "C13", Name: fmt.Sprintf("fifo-link-drop-redial-link%d-cut-at-%s", cut, side), Run: func(ctx *harn.Ctx) *harn.Result {
+				return harn.Explore(ctx, harn.Sched{QuickBound: 1, ThoroughBound: 2, Preempt: false, Cache: true, HorizonS: 30, Body: netBody(netOpts{}, func(nw *NetWorld) {
+					var errsA, errsB []string
+					sa := seqSender(nw.a, "SA", &errsA)
+					ra := nw.a.spawnProbe("RA", probeCfg{}, gen.ProcessOptions{})
+					sb := seqSender(nw.b, "SB", &errsB)
+					rb := nw.b.spawnProbe("RB", probeCfg{}, gen.ProcessOptions{})
+					nw.connectDialing(nil, nil)
+					nw.ex.RunSetup()
+					if nw.ex.Failed() {
+						return
+					}
+					if len(nw.links) != 3 {
+						nw.ex.Fail("harness", "expected a pool of 3 links after the set-up, got %d", len(nw.links))
+						return
+					}
+					ma := []string{"m1", "m2", "m3", "m4"}
+					mb := []string{"n1", "n2", "n3", "n4"}
+					nw.ex.Thread("GOA", func() { nw.a.n.Send(sa, seqReq{rb, ma}) })
+					nw.ex.Thread("GOB", func() { nw.b.n.Send(sb, seqReq{ra, mb}) })
+					nw.ex.ThreadLow("CUT", func() {
+						if side == "a" {
+							nw.links[cut].ca.Close()
+						} else {
+							nw.links[cut].cb.Close()
+						}
+					})
+					nw.Check = func() {
+						gotB := handled(nw.b.recs["RB"], "M:")
+						gotA := handled(nw.a.recs["RA"], "M:")
+						if !inOrder(gotB, ma) {
+							nw.ex.Fail("network-order-violated", "a->b: sent %v while link %d was cut and re-dialled; handled in the order %v", ma, cut, gotB)
+						}
+						if !inOrder(gotA, mb) {
+							// the acceptor's pool is re-packed when a link leaves it and the re-dialled link is appended:
+							// order%len(pool) selects another link for the rest of the stream (own kind: known finding)
+							nw.ex.Fail("network-order-violated-acceptor-pool-repacked", "b->a: sent %v while link %d was cut and re-dialled; handled in the order %v", mb, cut, gotA)
+						}
+						_, ea := nw.a.n.network.Node(nw.b.n.Name())
+						_, eb := nw.b.n.network.Node(nw.a.n.Name())
+						if ea != nil || eb != nil {
+							nw.ex.Fail("connection-lost-after-single-link-drop", "one of three links was cut; a sees b: %v, b sees a: %v", ea == nil, eb == nil)
+						}
+						nw.Out("a->b=%s b->a=%s links=%d errs=%v/%v", strings.Join(gotB, ","), strings.Join(gotA, ","), len(nw.links), errsA, errsB)
+					}
+				})})
+			}})
+		}
+	}
 	// compressed and uncompressed frames of one pair must share the receive queue
 	harn.Register(harn.Scenario{Property: "C13", Name: "fifo-compressed-mix", Run: func(ctx *harn.Ctx) *harn.Result {
 		return harn.Explore(ctx, harn.Sched{QuickBound: 1, ThoroughBound: 2, Preempt: false, Cache: true, Body: netBody(netOpts{skipB: 1}, func(nw *NetWorld) {
